@@ -14,6 +14,6 @@ META = {
 def queries():
     qs = []
     for q in C06.queries():
-        if any(k in q.name for k in ("step-close-", "step-renegotiate-", "step-recvrec_ack-", "step-closed-any-")):
+        if any(k in q.name for k in ("step-close-", "step-renegotiate-", "step-recvrec_ack-", "step-sendrec_ack-", "step-closed-any-")):
             qs.append(q)
     return qs + sslio_queries()
